@@ -46,6 +46,12 @@ type Session struct {
 	// Initiated: ... of its own accord, not in reaction to an error or to
 	// the peer's hang-up.
 	Initiated bool
+	// CloseReturned: that Close call has returned.
+	CloseReturned bool
+	// PrevClosing: when this connection was handed out (no relay fault so
+	// far) the application of the previous one had begun to close it of its
+	// own accord and that Close call had not returned yet.
+	PrevClosing bool
 	// PrevInUse: when this connection was handed out, in a run without any
 	// relay fault, neither application had started to close the previous
 	// connection: it was taken away from under its users.
@@ -301,6 +307,9 @@ func (w *World) newSession(side string, round int, list *[]*Session, conn net.Co
 		// Without relay faults a connection only ends because one of the
 		// two applications ends it of its own accord (sessions pair up by
 		// index then); everything else is a reaction.
+		if w.faults == 0 && prev.Conn != nil && prev.Initiated && !prev.CloseReturned {
+			ss.PrevClosing = true
+		}
 		if w.faults == 0 && prev.Conn != nil && prev.HsDone && !prev.Initiated {
 			other := w.sessS
 			if side == "server" {
@@ -364,6 +373,7 @@ func (w *World) runApp(ss *Session, out, in []int, outTag, inTag string, closer 
 			w.mu.Unlock()
 			w.closing(ss, true)
 			_ = ss.Secured.Close()
+			w.closeReturned(ss)
 			w.mu.Lock()
 			ss.ClosedAt = w.s.Now()
 			w.mu.Unlock()
@@ -434,6 +444,7 @@ func (w *World) runApp(ss *Session, out, in []int, outTag, inTag string, closer 
 	case !ok:
 		w.closing(ss, false)
 		_ = ss.Secured.Close()
+		w.closeReturned(ss)
 	case closer:
 		// Like a request/response application, the side that hangs up
 		// first waits for the peer's acknowledgement that it has read
@@ -453,6 +464,7 @@ func (w *World) runApp(ss *Session, out, in []int, outTag, inTag string, closer 
 		w.mu.Unlock()
 		w.closing(ss, ok)
 		_ = ss.Secured.Close()
+		w.closeReturned(ss)
 	default:
 		_, err := ss.Secured.Write([]byte{'!'})
 		if err != nil {
@@ -468,6 +480,7 @@ func (w *World) runApp(ss *Session, out, in []int, outTag, inTag string, closer 
 		_, _ = ss.Secured.Read(buf)
 		w.closing(ss, false)
 		_ = ss.Secured.Close()
+		w.closeReturned(ss)
 	}
 	w.mu.Lock()
 	ss.ClosedAt = w.s.Now()
@@ -501,6 +514,13 @@ func (w *World) closing(ss *Session, initiative bool) {
 	if initiative {
 		ss.Initiated = true
 	}
+	w.mu.Unlock()
+}
+
+// closeReturned marks that the application's Close call has returned.
+func (w *World) closeReturned(ss *Session) {
+	w.mu.Lock()
+	ss.CloseReturned = true
 	w.mu.Unlock()
 }
 
@@ -551,6 +571,7 @@ func (w *World) serverLoop() {
 				w.mu.Unlock()
 				w.closing(ss, true)
 				_ = conn.Close()
+				w.closeReturned(ss)
 				return
 			}
 			sec, _, err := w.noiseS.ServerHandshake(conn)
@@ -561,6 +582,7 @@ func (w *World) serverLoop() {
 				w.mu.Unlock()
 				w.closing(ss, false)
 				_ = conn.Close()
+				w.closeReturned(ss)
 				return
 			}
 			w.mu.Lock()
@@ -628,6 +650,7 @@ func (w *World) clientLoop() {
 				w.mu.Unlock()
 				w.closing(ss, true)
 				_ = conn.Close()
+				w.closeReturned(ss)
 				return
 			}
 			sec, _, err := w.noiseC.ClientHandshake(w.rootCtx, "relay", conn)
@@ -640,6 +663,7 @@ func (w *World) clientLoop() {
 				vrt.Point("client.backoff")
 				w.closing(ss, false)
 				_ = conn.Close()
+				w.closeReturned(ss)
 				return
 			}
 			w.mu.Lock()
@@ -706,6 +730,7 @@ func (w *World) intruderAttempt() {
 	w.mu.Unlock()
 	w.closing(ss, true)
 	_ = conn.Close()
+	w.closeReturned(ss)
 }
 
 // ---------------------------------------------------------------- vrt.Env
